@@ -646,4 +646,19 @@ theorem valid_stream_through_a_ring_to_the_end (flagsR flagsF W : Nat) (hfl : Fl
   · exact absurd hfuel (Spec.inflateSpec_ne_fuel _ _ _ _)
 
 
+open Model.Core in
+/-- … and whatever the driver does, on any part of a valid raw stream the last ring call (the earlier
+    ones being suspended) ends in one of four statuses — never `Failed`, a checksum or a parameter
+    error. -/
+theorem ring_last_call_status_on_a_valid_stream (flagsR flagsF W maxDist : Nat) (hfl : FlagsRF flagsR flagsF) (hbig : 32768 ≤ W)
+    (oR : Array UInt8) (hW : oR.size = W) (hg : badGeometry flagsR W 0 = false)
+    (hz : hasFlag flagsR fParseZlib = false) (hstop : hasFlag flagsR fStopOnBlockBoundary = false)
+    (c : Array UInt8) (cs : List (Array UInt8)) (b : Array UInt8) (res : Spec.Inflated)
+    (hspec : Spec.inflateSpec #[] maxDist (catList (c :: cs) ++ b) 0 = .accept res)
+    (hsus : ∀ x ∈ (runRing flagsR W {} oR 0 #[] (c :: cs)).dropLast, suspended x.1)
+    (lastR : Res × Nat) (hlast : (runRing flagsR W {} oR 0 #[] (c :: cs)).getLast? = some lastR) :
+    lastR.1.status = stDone ∨ lastR.1.status = stHasMoreOutput ∨ lastR.1.status = stNeedsMoreInput ∨
+    lastR.1.status = stFailedCannotMakeProgress :=
+  ring_last_status_valid flagsR flagsF W maxDist hfl hbig oR hW hg hz hstop c cs b res hspec hsus lastR hlast
+
 end C07
